@@ -50,7 +50,7 @@ ASSUMPTIONS = [
 LAYS = ["c", "c", "t", "s", "n"]
 BATCHES = [(), (), (), (2,), (1,), (3,), (2, 1), (1, 2)]
 ROLE = {
-    "rhs": "rhs", "lhs": "lhs", "guess": "guess", "init": "probe", "test": "probe", "shifts": "shift", "cot": "cotangent",
+    "rhs": "rhs", "lhs": "lhs", "guess": "guess", "init": "probe", "test": "probe", "det_probes": "probe", "shifts": "shift", "cot": "cotangent",
     "cot2": "cotangent", "diag": "rhs", "mat": "rhs", "cross": "rhs", "new": "rhs", "other": "rhs", "A": "defining",
     "P": "defining", "col": "defining", "row": "defining", "idx": "index", "val": "defining", "perm": "index",
     "left": "index", "right": "index", "dense": "rhs", "weights": "shift",
@@ -418,6 +418,12 @@ def _gen_step(draw, name, shape, dt, rg=False):
             c = draw(st.integers(1, 3))
             s["rhs"] = mark(T(tuple(batch) + (n, c), exp_ok=not rg))
         s["logdet"] = True if (name == "backward_iql" or "rhs" not in s) else draw(st.booleans())
+        if name == "inv_quad_logdet" and s["logdet"] and not rg and draw(st.integers(0, 2)) == 0:
+            # caller-supplied probe vectors: settings.deterministic_probes.probe_vectors (*batch x n x num_trace_samples),
+            # read by the stochastic log-determinant; the step runs it on the iterative path (max_cholesky_size 0)
+            s["nprobe"] = draw(st.integers(1, 4))
+            s["det_probes"] = T(tuple(batch) + (n, s["nprobe"]), exp_ok=False)
+            s["precond"] = draw(st.sampled_from([0, 0, 15]))
         if name == "backward_iql":
             s["cot"] = T(batch, exp_p=1)
             s["cot2"] = T(batch, exp_p=1)
@@ -619,6 +625,14 @@ def _run_step(op, s, a):
     if nm == "inv_quad":
         return op.inv_quad(a["rhs"], reduce_inv_quad=s["reduce"])
     if nm == "inv_quad_logdet":
+        if "det_probes" in a:
+            from linear_operator import settings as S
+
+            with S.max_cholesky_size(0), S.num_trace_samples(s["nprobe"]), S.max_preconditioner_size(s["precond"]), S.deterministic_probes(True):
+                S.deterministic_probes.probe_vectors = a["det_probes"]
+                res = op.inv_quad_logdet(a.get("rhs"), logdet=s["logdet"])
+                # (a second evaluation in the same context reads the caller's tensor again)
+                return res, op.inv_quad_logdet(a.get("rhs"), logdet=s["logdet"])
         return op.inv_quad_logdet(a.get("rhs"), logdet=s["logdet"])
     if nm == "logdet":
         return op.logdet()
